@@ -68,10 +68,10 @@ def _ensure_thermo():
 # =========================================================================== universe
 
 class Seq:
-    __slots__ = ('li', 'unit', 'uname', 'side', 'seq', 'fixed', 'size', 'name', 'tag')
+    __slots__ = ('li', 'unit', 'uname', 'side', 'isin', 'seq', 'fixed', 'size', 'name', 'tag')
 
     def __init__(self, li, unit, uname, side):
-        self.li = li; self.unit = unit; self.uname = uname; self.side = side
+        self.li = li; self.unit = unit; self.uname = uname; self.side = side; self.isin = side == 'ins'
         self.seq = unit._ins if side == 'ins' else unit._outs
         self.fixed = self.seq._fixed_size
         self.size = self.seq._size
@@ -169,7 +169,7 @@ class Universe:
     def restore(self, snap):
         lists, objs = snap
         for q, L in zip(self.seqs, lists):
-            q.seq._streams = list(L)
+            if q.seq._streams != L: q.seq._streams = list(L)
         for o, a, b in objs.values():
             o._source = a; o._sink = b
 
@@ -210,55 +210,73 @@ WF_CLAUSES = (
     'I1 every listed outlet has source = the unit',
     'I2 a stream whose sink is a unit is listed among that unit\'s inlets',
     'I2 a stream whose source is a unit is listed among that unit\'s outlets',
-    'I3 no stream occupies two inlet ports',
-    'I3 no stream occupies two outlet ports',
+    'I3 no stream (or placeholder) occupies two inlet ports',
+    'I3 no stream (or placeholder) occupies two outlet ports',
     'I4 fixed-size port list keeps its size',
     'I4 every port holds a stream or a falsy placeholder',
-    'I4 a placeholder occupies at most one inlet and one outlet port',
 )
+# "a placeholder belongs to one port": with I1 (one sink, one source per object) and I3 (not twice in a list) a
+# placeholder occupies at most one inlet port and at most one outlet port, exactly like a real stream.  (A placeholder
+# that is an outlet of one unit and an inlet of another is a *missing connection*; unit - unit piping creates these
+# on purpose, so nothing stronger is demanded.)
 
 
 def wf_failures(U):
     """Indices into WF_CLAUSES of the conjuncts that do not hold in the current object graph."""
-    bad = set()
-    nin = {}
-    nout = {}
+    bad = None
     for q in U.seqs:
         unit = q.unit
         L = q.seq._streams
-        isin = q.side == 'ins'
-        seen = set()
-        for e in L:
-            i = id(e)
-            if isinstance(e, REAL):
-                if not e: bad.add(7)
-            elif isinstance(e, MISS):
-                if e: bad.add(7)
-                d = nin if isin else nout
-                d[i] = d.get(i, 0) + 1
-            else:
-                bad.add(7)
-                continue
-            if isin:
-                if e._sink is not unit: bad.add(0)
-            else:
-                if e._source is not unit: bad.add(1)
-            if i in seen: bad.add(4 if isin else 5)
-            seen.add(i)
-        if q.fixed and len(L) != q.size: bad.add(6)
-    for d in (nin, nout):
-        for c in d.values():
-            if c > 1: bad.add(8)
+        n = len(L)
+        if q.fixed and n != q.size:
+            if bad is None: bad = set()
+            bad.add(6)
+        if q.isin:
+            for e in L:
+                c = e.__class__
+                if c is not REAL:                         # exactly AbstractStream: truthy (no __bool__/__len__)
+                    if c is MISS or isinstance(e, MISS): ok = not e
+                    elif isinstance(e, REAL): ok = bool(e)
+                    else: ok = False
+                    if not ok:
+                        if bad is None: bad = set()
+                        bad.add(7)
+                        if not isinstance(e, (REAL, MISS)): continue
+                if e._sink is not unit:
+                    if bad is None: bad = set()
+                    bad.add(0)
+        else:
+            for e in L:
+                c = e.__class__
+                if c is not REAL:
+                    if c is MISS or isinstance(e, MISS): ok = not e
+                    elif isinstance(e, REAL): ok = bool(e)
+                    else: ok = False
+                    if not ok:
+                        if bad is None: bad = set()
+                        bad.add(7)
+                        if not isinstance(e, (REAL, MISS)): continue
+                if e._source is not unit:
+                    if bad is None: bad = set()
+                    bad.add(1)
+        if n > 1 and len(set(map(id, L))) != n:
+            if bad is None: bad = set()
+            bad.add(4 if q.isin else 5)
+    ins_of = U.ins_of; outs_of = U.outs_of
     for s in U.known:
         u = s._sink
         if u is not None:
-            q = U.ins_of.get(id(u))
-            if q is None or not any(e is s for e in q.seq._streams): bad.add(2)
+            q = ins_of.get(id(u))
+            if q is None or s not in q.seq._streams:      # streams compare by identity (no __eq__)
+                if bad is None: bad = set()
+                bad.add(2)
         u = s._source
         if u is not None:
-            q = U.outs_of.get(id(u))
-            if q is None or not any(e is s for e in q.seq._streams): bad.add(3)
-    return bad
+            q = outs_of.get(id(u))
+            if q is None or s not in q.seq._streams:
+                if bad is None: bad = set()
+                bad.add(3)
+    return bad or ()
 
 
 # =========================================================================== operations
@@ -296,14 +314,18 @@ def gen_ops(U, full):
     add = ops.append
     seqs = U.seqs
     listed = set()
+    names = dict(U.sname)
     for q in seqs:
-        for e in q.seq._streams: listed.add(id(e))
+        for i, e in enumerate(q.seq._streams):
+            listed.add(id(e))
+            if id(e) not in names: names[id(e)] = f'<{q.name}[{i}]>'
+    names[id(None)] = 'None'
     docked = []; free = []
     for s in U.known:
         (docked if (s._source is not None or s._sink is not None or id(s) in listed) else free).append(s)
     c1 = docked + free[:1]
     c2 = docked + free[:2]
-    nm = U.nm
+    def nm(e): return names.get(id(e)) or U.nm(e)
     holders = []       # first placeholder of each list
     for q in seqs:
         for e in q.seq._streams:
@@ -333,8 +355,13 @@ def gen_ops(U, full):
         if full and n > 1: idxs.append(-1)
         xs = [s for s in c1 if not _has(L, s)]
         xs.append(None)
+        got = set()
         for q2, e in holders:                     # placeholders of other lists ("operating on placeholder streams")
-            if q2 is not q and not _has(L, e): xs.append(e)
+            if q2 is not q and not _has(L, e) and not _has(xs, e):
+                if not full:                      # core alphabet: one from the same side, one from the other side
+                    if q2.side in got: continue
+                    got.add(q2.side)
+                xs.append(e)
         for i in idxs:
             for x in xs:
                 add_set = (lambda seq=seq, i=i, x=x: seq.__setitem__(i, x))
@@ -418,8 +445,7 @@ def gen_ops(U, full):
         ext = [()] + [(x,) for x in fr[:1]] + [(x, y) for x in fr[:2] for y in fr[:2] if x is not y]
         for t in ext if not q.fixed else ext[:2]:
             mk(f'extend[{tag}]', f'{q.name}.extend((' + ','.join(nm(x) for x in t) + '))',
-               (lambda seq=seq, t=t: seq.extend(t)), q, [li], list(t), ('ins', li, n, list(t)),
-               refuse if t else ())
+               (lambda seq=seq, t=t: seq.extend(t)), q, [li], list(t), ('ins', li, n, list(t)), refuse)
         # ------------------------------------------------------------ pop / remove / replace / clear / empty / reverse
         for i in range(n):
             mk(f'pop[{tag}]', f'{q.name}.pop({i})', (lambda seq=seq, i=i: seq.pop(i)), q, [li], [], ('pop', li, i))
@@ -600,7 +626,8 @@ def effect_failures(U, op, pre_lists, ret):
             exp = L[:i] + L[i + 1:]
         if not _matches(M, exp, L): bad.append('effect: the port is vacated, other ports unchanged')
         side = '_sink' if q.side == 'ins' else '_source'
-        if getattr(L[i], side) is not None: bad.append('effect: the removed stream is undocked')
+        if isinstance(L[i], REAL) and getattr(L[i], side) is not None:
+            bad.append('effect: the removed stream is undocked')
     elif k == 'rem':
         _, li, x = eff
         q = U.seqs[li]; L = pre_lists[li]; M = q.seq._streams
@@ -612,7 +639,8 @@ def effect_failures(U, op, pre_lists, ret):
             ok = (not _has(M, x)) and _same([e for e in M if _has(L, e)], L[:j] + L[j + 1:])
         if not ok: bad.append('effect: the port is vacated, other ports unchanged')
         side = '_sink' if q.side == 'ins' else '_source'
-        if getattr(x, side) is not None: bad.append('effect: the removed stream is undocked')
+        if isinstance(x, REAL) and getattr(x, side) is not None:
+            bad.append('effect: the removed stream is undocked')
     elif k == 'clr':
         _, li = eff
         q = U.seqs[li]; L = pre_lists[li]; M = q.seq._streams
@@ -685,33 +713,51 @@ FRAME_CLAUSES = ('frame: the other side of every connection is unchanged',
 
 def frame_failures(U, op, snap):
     pre_lists, objs = snap
+    bad = None
+    changed = [q for q in U.seqs if q.seq._streams != pre_lists[q.li]]     # element-wise identity
+    csrc = None; csnk = None
+    for o, a, b in objs.values():
+        if o._source is not a:
+            if csrc is None: csrc = []
+            csrc.append(o)
+        if o._sink is not b:
+            if csnk is None: csnk = []
+            csnk.append(o)
+    if not changed and csrc is None and csnk is None:
+        return ()
     bad = set()
-    for side, spec, attr in (('ins', op.ins, 2), ('outs', op.outs, 1)):
+    inv = {}
+
+    def involved(side, spec):
+        r = inv.get(side)
+        if r is None:
+            targets, entering = spec
+            r = {id(x) for x in entering}
+            for li in targets:
+                for e in pre_lists[li]: r.add(id(e))
+            inv[side] = r
+        return r
+
+    for q in changed:
+        spec = op.ins if q.isin else op.outs
         if spec is None:
-            for q in U.seqs:
-                if q.side == side and not _same(q.seq._streams, pre_lists[q.li]): bad.add(0)
-            for rec in objs.values():
-                o = rec[0]
-                if (o._sink if attr == 2 else o._source) is not rec[attr]: bad.add(0)
-            continue
+            bad.add(0); continue
         targets, entering = spec
-        ent = {id(x) for x in entering}
-        involved = set(ent)
-        for li in targets:
-            for e in pre_lists[li]: involved.add(id(e))
-        for q in U.seqs:
-            if q.side != side or q.li in targets: continue
-            L = pre_lists[q.li]; M = q.seq._streams
-            if len(L) != len(M):
-                bad.add(1); continue
-            for e, m in zip(L, M):
-                if m is e: continue
-                if id(e) in ent and _is_new_placeholder(m, L): continue
-                bad.add(1)
-        for rec in objs.values():
-            o = rec[0]
-            if id(o) in involved or not isinstance(o, REAL): continue
-            if (o._sink if attr == 2 else o._source) is not rec[attr]: bad.add(2)
+        if q.li in targets: continue
+        L = pre_lists[q.li]; M = q.seq._streams
+        if len(L) != len(M):
+            bad.add(1); continue
+        for e, m in zip(L, M):
+            if m is e: continue
+            if _has(entering, e) and _is_new_placeholder(m, L): continue
+            bad.add(1)
+    for objs_changed, spec, side in ((csrc, op.outs, 'outs'), (csnk, op.ins, 'ins')):
+        if objs_changed is None: continue
+        if spec is None:
+            bad.add(0); continue
+        r = involved(side, spec)
+        for o in objs_changed:
+            if id(o) not in r and isinstance(o, REAL): bad.add(2)
     return bad
 
 
@@ -725,6 +771,7 @@ class Stats:
         self.refused = {}
         self.steps = 0
         self.states = 0
+        self.frontier = 0
 
     def failed(self, kind, clause, trace):
         r = self.fail.get((kind, clause))
@@ -782,9 +829,38 @@ def step(U, op, snap, stats, trace):
         # a refused operation must not have changed anything
         if not all(_same(q.seq._streams, snap[0][q.li]) for q in U.seqs) or \
                 any(o._source is not a or o._sink is not b for o, a, b in snap[1].values()):
-            if isinstance(op.refusals, tuple) and op.refusals:
+            if op.refusals == (RuntimeError,):      # list-level refusal ("size is fixed")
                 stats.failed(kind, 'frame: a refused operation changes nothing', trace + [op.label, '=> ' + U.describe()])
     return not bad
+
+
+def explore_partitioned(U, depth, bfs, full, stats, chunk, chunks):
+    """All operation sequences of length <= depth from the current state.  Levels 0 .. bfs-1 are expanded breadth-first
+    with a table of visited object-graph states (every process computes the same table, deterministically); the
+    states of level `bfs` are dealt round-robin to the `chunks` configurations; below them depth-first (explore).
+    A state is expanded again only if it is reached with a larger remaining depth than before."""
+    seen = {U.key(): depth}
+    level = [(U.save(), [])]
+    for lv in range(bfs):
+        nxt = []
+        remaining = depth - lv
+        for snap, trace in level:
+            U.restore(snap)
+            stats.states += 1
+            for op in gen_ops(U, full):
+                ok = step(U, op, snap, stats, trace)
+                if ok and remaining > 1:
+                    k = U.key()
+                    if seen.get(k, 0) < remaining - 1:
+                        seen[k] = remaining - 1
+                        nxt.append((U.save(), trace + [op.label]))
+                U.restore(snap)
+        level = nxt
+    stats.frontier = len(level)
+    if depth > bfs:
+        for snap, trace in level[chunk::chunks]:
+            U.restore(snap)
+            explore(U, depth - bfs, full, stats, seen, list(trace))
 
 
 def explore(U, depth, full, stats, memo, trace):
@@ -825,7 +901,6 @@ def emit(w, U, stats, init, big):
             if f is None:
                 w.ensure(f'after {kind}: {c}', True)
             else:
-                labels = [x for x in f[1] if not x.startswith('=> ') and ': ' not in x[:30] or x.startswith(('F', 'V', 'M', 'G', 'X', 'W', 's', 'reconnect', '(', 'Port')) and not x.startswith('=> ')]
                 w.ensure(f'after {kind}: {c}', False, failures=f[0], executions=stats.n[kind],
                          first=' ; '.join(f[1]))
         extra = [k for k in stats.fail if k[0] == kind and k[1] not in names]
@@ -893,7 +968,8 @@ def exhaustive_configs(tier):
     for init, depth, full, chunks in plan:
         for k in range(chunks):
             out.append({'name': f'init={init};depth={depth};alphabet={"full" if full else "core"};chunk={k}/{chunks}',
-                        'init': init, 'depth': depth, 'full': full, 'chunk': k, 'chunks': chunks})
+                        'init': init, 'depth': depth, 'bfs': min(2, depth - 1), 'full': full, 'chunk': k,
+                        'chunks': chunks})
     # interleave so that neighbouring jobs (pool chunksize) have different costs
     out.sort(key=lambda c: (c['chunk'], c['name']))
     return out
@@ -945,22 +1021,11 @@ def exhaustive(w, cfg):
         return
     canaries(w, U)
     stats = Stats()
-    memo = {}
-    snap = U.save()
-    first = gen_ops(U, full)
-    stats.states += 1
-    for n, op in enumerate(first):
-        if n % cfg['chunks'] != cfg['chunk']:
-            continue
-        ok = step(U, op, snap, stats, [])
-        if ok and depth > 1:
-            k = U.key()
-            if memo.get(k, 0) < depth - 1:
-                memo[k] = depth - 1
-                explore(U, depth - 1, full, stats, memo, [op.label])
-        U.restore(snap)
+    start = U.save()
+    explore_partitioned(U, depth, cfg['bfs'], full, stats, cfg['chunk'], cfg['chunks'])
+    U.restore(start)
     _confirm_and_emit(w, U, stats, init, False)
-    w.note(first_level_ops=len(first), steps=stats.steps, states_expanded=stats.states,
+    w.note(steps=stats.steps, states_expanded=stats.states, states_at_partition_level=stats.frontier,
            refused=sum(stats.refused.values()))
 
 
